@@ -46,4 +46,9 @@ TEXTS = {
         "note": "Trusted: Lean kernel; extract_tables.py; the model of stringify_arg / is_injectable_by validated on every run; the public-API oracle for dependency gating is exploration, not proof.",
         "technique": "Lean 4 theorems (bit extensionality; induction over the argument with a decide over the extracted 256-entry table) + correspondence check + public-API oracle",
     },
+    "C02": {
+        "level": "Lean 4 proofs that the element matcher standing for the regex text emitted by compile_regex decides the declarative ABP relation MatchesAt (soundness and completeness, every pattern and input), that on literal-only patterns it is prefix / suffix / infix / equality so that the plain fast paths of check_pattern equal the regex semantics (dispatch_plain_eq_regex), and the weakening relations for all patterns; the hostname-anchored paths and the parse-time pattern surgery are tied by an exhaustive correspondence (all patterns up to a length bound x six anchor forms x 228 URLs) of the real matcher, the Lean parser + matcher model and the reference semantics computed from the rule text. Two genuine defects are recorded as known findings (F2 first-occurrence anchoring, F20 ||host|).",
+        "note": "Trusted: Lean kernel; the regex crate; the model's faithfulness validated exhaustively on the small universe and randomly beyond; equality model = reference is proved for the non-hostname paths and checked (not proved) for the ||host paths inside Spec.inDomain.",
+        "technique": "Lean 4 theorems (rule induction on MatchesAt, induction on patterns) + exhaustive correspondence on a small universe",
+    },
 }
